@@ -70,12 +70,27 @@ def _history(draw, gen: int):
             ops.append(["push_zone", recs if draw(st.booleans()) else "same"])
         else:
             ops.append(["advance", draw(st.sampled_from([700.0, 1300.0, 2000.0]))])
-    return {"inst": inst, "state": state, "ops": ops}
+    return {"inst": inst, "state": state, "ops": ops, "reinit": draw(st.integers(0, 3)) == 0}
 
 
 class Interp(apiops.ApiInterp):
-    def __init__(self, inst, state):
+    def __init__(self, inst, state, reinit=False):
         super().__init__(ID, inst, state)
+        if reinit:
+            # the same object is shut down and initialised again before the history starts: everything (refresh after a
+            # reconnection, the AT4 poll) must work as on a fresh object
+            r = self.rig.loop.call(self.at.shutdown())
+            if r[0] != "ok":
+                self.bad("shutdown", f"shutdown(): {r!r}")
+            self.rig.loop.advance(1.0)
+            self.rig.console.step_count = {}
+            r = self.rig.run_init()
+            if r != ("ok", True):
+                self.bad("reinit", f"init() after shutdown(): {r!r}")
+            self.acs = {a.ac_id: a for a in self.at.air_conditioners}
+            self.zones = {z.zone_id: z for a in self.at.air_conditioners for z in a.zones}
+            self.nt.add("after-reinit")
+            self.check_model("after re-init")
         self.t0 = self.rig.loop.time()
         # one subscriber per entity
         for n in self.acs:
@@ -256,7 +271,7 @@ class Interp(apiops.ApiInterp):
 
 
 def run_history(case, stats: Stats | None):
-    x = Interp(case["inst"], case["state"])
+    x = Interp(case["inst"], case["state"], reinit=bool(case.get("reinit")))
     try:
         x.run(case["ops"])
         if stats is not None:
@@ -278,7 +293,7 @@ def shards(tier: str):
 
 
 def floors(tier: str):
-    return {"outage": 200, "poll": 50, "state-changed-while-down": 100}
+    return {"outage": 200, "poll": 50, "state-changed-while-down": 100, "after-reinit": 150}
 
 
 def run_shard(spec, seed: int, tier: str):
